@@ -64,6 +64,7 @@ structure St where
   kids : List (String × Kid) := []
   known : List String := []
   lastObs : String := ""
+  seen : List (Nat × Tx × Option NDoc × String) := []   -- deliveries that reached the callback (index, tx, document, did thumbprint)
 
 def hashName (known : List String) (h : String) : String :=
   if known.contains h then short h else "M"
@@ -136,6 +137,7 @@ def step (st : St) (j : Json) : St × List String :=
     let cbOnly := if jHas j "cb" then jBool j "cb" else !st.verify
     let r := if cbOnly then callback c st.store tx pd else deliver c st.store tx pd
     let hdr := s!"pair {jInt j "h"}.{jNat j "i"}"
+    let st := { st with seen := st.seen ++ [(jNat j "i", tx, pd, embDid)] }
     match r with
     | .ok s' =>
       let dup := match pd with
@@ -147,6 +149,23 @@ def step (st : St) (j : Json) : St × List String :=
       ({ st' with lastObs := o }, [s!"{hdr} ok [{if dup then "db-same" else "db-changed"}] {shown}"])
     | .err e => (st, [s!"{hdr} err:{e} [db-same] ="])
     | .panic x => (st, [s!"{hdr} panic:{x} [db-same] ="])
+  | "reprocess" =>
+    -- REPROCESS of application/did+json: the listed transactions go through `callback` again, in order
+    let idx := jNats j "is"
+    let todo := idx.filterMap (fun i => st.seen.find? (fun e => e.1 == i))
+    let r := todo.foldl (fun (acc : Store × Bool) e =>
+      let (_, tx, pd, embDid) := e
+      match callback (cfgFor tx.embedded embDid) acc.1 tx pd with
+      | .ok s' =>
+        let dup := match pd with
+          | some d => contains (acc.1.get d.id).events (eventOf tx d)
+          | none => false
+        (s', acc.2 || !dup)
+      | _ => acc) (st.store, false)
+    let st' := { st with store := r.1 }
+    let o := if r.2 then observe st' else st.lastObs
+    let shown := if o == st.lastObs then "=" else o
+    ({ st' with lastObs := o }, [s!"reprocess {jInt j "h"} [{if r.2 then "db-changed" else "db-same"}] {shown}"])
   | "verify" =>
     -- the DAG's signature verifier alone, at the store state of this moment (delayed-VDR schedule)
     let (tx, _) := parseTx (jObj j "tx")
